@@ -125,7 +125,13 @@ func (df *DictionaryFilter) extractElements(serializedArray []byte, values [][]b
 		// For each query value, check if it exists in the array
 		// UnmarshalVarArray modifies the source in-place for decoding
 		// This approach has zero allocations and early-exits on match
+		// UnmarshalVarArray decodes an escaped element in place: every scan needs the stored bytes intact.
+		stored := serializedArray
+		hasEscape := bytes.IndexByte(stored, encoding.Escape) >= 0
 		for _, v := range values {
+			if hasEscape {
+				serializedArray = append(serializedArray[:0:0], stored...)
+			}
 			found := false
 			for idx := 0; idx < len(serializedArray); {
 				end, next, err := encoding.UnmarshalVarArray(serializedArray, idx)
